@@ -29,6 +29,9 @@ inductive Root | global | param | call | alias | viaGlobal
   deriving DecidableEq, Repr
 
 inductive Sync | none | mutex | syncMap | syncMapCasNil | syncMapLoad | once | nilGuardInit | nilGuardNoInit | nilGuardCtor | nilGuardField
+  | mutexIfAbsent   -- under a mutex, `M[k] = v` only in the absent-branch of a lookup of M[k]: load-or-publish, FIRST writer wins
+  | appendSpare     -- `append(s, …)` on a slice reachable from shared state: a PLAIN WRITE into the shared backing array whenever cap s > len s
+  | appendClipped   -- `append(s[:n:n], …)` / `append(slices.Clip(s), …)`: cap = len, append reallocates, nothing shared is written
   deriving DecidableEq, Repr
 
 /-- one write to (possibly) shared state found by the translator; `via` = entry point whose parameter leads
@@ -52,6 +55,8 @@ inductive Act
   | syncRead (c : Cell)              -- synchronised read whose value the thread goes on to USE
   | cacheUse (c : Cell) (v : Val)    -- `m, ok := cache.Load(k); if !ok { m = compute(k, per-call options) }; use m`:
                                      -- observes the value it ends up USING: the cached one if any, else its own `v`
+  | fillUse (c : Cell) (v : Val)     -- synchronised load-or-publish whose result the thread goes on to USE: `lock; if p, ok :=
+                                     -- cache[k]; ok { x = p } else { cache[k] = x }; unlock; use x` (getTypeInfo): first writer wins
   deriving DecidableEq, Repr
 
 abbrev State := Cell → Val
@@ -67,6 +72,7 @@ def stepState (σ : State) : Act → State
   | .syncStore c v => fun x => if x = c then v else σ x
   | .syncRead _ => σ
   | .cacheUse _ _ => σ
+  | .fillUse c v => fun x => if x = c then fillVal (σ c) v else σ x
 
 /-- what the acting thread observes (its verdict is a function of the list of these) -/
 def stepObs (σ : State) : Act → Option Val
@@ -74,6 +80,7 @@ def stepObs (σ : State) : Act → Option Val
   | .lazyInit c v => some (if σ c = 0 then v else σ c)
   | .syncRead c => some (σ c)
   | .cacheUse c v => some (fillVal (σ c) v)
+  | .fillUse c v => some (fillVal (σ c) v)
   | _ => none
 
 inductive Access | plainRead | plainWrite | sync
@@ -93,6 +100,7 @@ def stepAcc (σ : State) : Act → Cell × Access
   | .syncStore c _ => (c, .sync)
   | .syncRead c => (c, .sync)
   | .cacheUse c _ => (c, .sync)
+  | .fillUse c _ => (c, .sync)
 
 abbrev Trace := List (Nat × Act)
 
@@ -146,13 +154,25 @@ theorem raceInB_iff (evs : List Event) : raceInB evs = true ↔ RaceIn evs := by
 structure Cfg where
   cache : List Cell
   lazy : List Cell
+  /-- caches whose content is USED by the threads: the one value the key of the cell determines (a type
+      descriptor is a function of the type). Cells not listed are caches nobody reads back. -/
+  det : List (Cell × Val) := []
   deriving Repr
+
+/-- a fill agrees with what the cell's key determines (no constraint on cells nobody reads back) -/
+def detOK (k : Cfg) (c : Cell) (v : Val) : Bool :=
+  match k.det.lookup c with
+  | none => true
+  | some d => d == v
 
 def cleanAct (k : Cfg) : Act → Bool
   | .read c => !k.cache.contains c
   | .write _ _ => false
-  | .cacheFill c _ => k.cache.contains c
-  | .lazyInit c _ => k.lazy.contains c && !k.cache.contains c
+  | .cacheFill c v => k.cache.contains c && detOK k c v
+  -- using what a FILLED cache holds is clean when every fill of that cell stores the same value, the one its key
+  -- determines: whoever publishes first, the thread uses that value
+  | .fillUse c v => k.cache.contains c && k.det.lookup c == some v && v != 0
+  | .lazyInit c v => k.lazy.contains c && !k.cache.contains c && detOK k c v
   | .syncStore _ _ => false   -- race-free, but last-writer-wins: a cache written this way is not transparent
   | .syncRead _ => false      -- … to a thread that uses what it reads back
   | .cacheUse c _ => !k.cache.contains c   -- using a cache is clean exactly when nothing fills it (then the thread
@@ -161,6 +181,7 @@ def cleanAct (k : Cfg) : Act → Bool
 /-- "a cache whose content is used is not filled" -/
 def useOK (k : Cfg) : Act → Bool
   | .cacheUse c _ => !k.cache.contains c
+  | .fillUse c v => k.det.lookup c == some v
   | _ => true
 
 def isUse : Act → Bool
@@ -177,12 +198,29 @@ theorem cleanTraceB_iff (k : Cfg) (tr : Trace) : cleanTraceB k tr = true ↔ Cle
 /-- every lazily initialised cell holds a value (the declaration's initialiser / the constructor set it) -/
 def LazyInit (k : Cfg) (σ : State) : Prop := ∀ c ∈ k.lazy, σ c ≠ 0
 
+/-- a used cache holds nothing or the value its key determines -/
+def Coherent (k : Cfg) (σ : State) : Prop := ∀ c d, k.det.lookup c = some d → σ c = 0 ∨ σ c = d
+
 /-- states that agree outside the cache cells -/
 def AgreeOff (k : Cfg) (σ τ : State) : Prop := ∀ c, c ∉ k.cache → σ c = τ c
 
 /-! ## helper lemmas -/
 
 theorem fillVal_ne (old v : Val) (h : old ≠ 0) : fillVal old v = old := by simp [fillVal, h]
+
+theorem lazyInit_clean (k : Cfg) (c : Cell) (v : Val) (hc : cleanAct k (.lazyInit c v) = true) :
+    c ∈ k.lazy ∧ c ∉ k.cache ∧ detOK k c v = true := by
+  simp only [cleanAct, Bool.and_eq_true, Bool.not_eq_true', List.contains_iff_mem] at hc
+  refine ⟨by simpa using hc.1.1, ?_, hc.2⟩
+  intro h
+  have : k.cache.contains c = true := by simpa using h
+  rw [this] at hc; exact absurd hc.1.2 (by simp)
+
+theorem fill_other (σ : State) (c x : Cell) (v : Val) (h : σ x ≠ 0) :
+    (if x = c then fillVal (σ c) v else σ x) ≠ 0 := by
+  by_cases hx : x = c
+  · subst hx; simpa [fillVal_ne _ v h] using h
+  · simpa [hx] using h
 
 theorem lazy_step (k : Cfg) (σ : State) (a : Act) (hc : cleanAct k a = true) (hl : LazyInit k σ) :
     LazyInit k (stepState σ a) := by
@@ -194,16 +232,9 @@ theorem lazy_step (k : Cfg) (σ : State) (a : Act) (hc : cleanAct k a = true) (h
   | syncStore c' v => simp [cleanAct] at hc
   | syncRead c' => simp [cleanAct] at hc
   | cacheUse c' v => simpa [stepState] using h0
-  | cacheFill c' v =>
-    simp only [stepState]
-    by_cases hx : c = c'
-    · subst hx; simp [fillVal_ne _ v h0, h0]
-    · simp [hx, h0]
-  | lazyInit c' v =>
-    simp only [stepState]
-    by_cases hx : c = c'
-    · subst hx; simp [fillVal_ne _ v h0, h0]
-    · simp [hx, h0]
+  | cacheFill c' v => exact fill_other σ c' c v h0
+  | fillUse c' v => exact fill_other σ c' c v h0
+  | lazyInit c' v => exact fill_other σ c' c v h0
 
 theorem acc_not_write (k : Cfg) (σ : State) (a : Act) (hc : cleanAct k a = true) (hl : LazyInit k σ) :
     (stepAcc σ a).2 ≠ .plainWrite := by
@@ -214,9 +245,9 @@ theorem acc_not_write (k : Cfg) (σ : State) (a : Act) (hc : cleanAct k a = true
   | syncRead c => simp [cleanAct] at hc
   | cacheUse c v => simp [stepAcc]
   | cacheFill c v => simp [stepAcc]
+  | fillUse c v => simp [stepAcc]
   | lazyInit c v =>
-    simp only [cleanAct, Bool.and_eq_true, List.contains_iff_mem] at hc
-    have := hl c (by simpa using hc.1)
+    have := hl c (lazyInit_clean k c v hc).1
     simp [stepAcc, this]
 
 theorem events_no_write (k : Cfg) : ∀ (tr : Trace) (σ : State), CleanTrace k tr → LazyInit k σ →
@@ -230,8 +261,59 @@ theorem events_no_write (k : Cfg) : ∀ (tr : Trace) (σ : State), CleanTrace k 
     · exact acc_not_write k σ a hca hl
     · exact events_no_write k tr (stepState σ a) (fun x hx => hc x (by simp [hx])) (lazy_step k σ a hca hl) e he
 
-theorem agree_step (k : Cfg) (σ τ : State) (a : Act) (hag : AgreeOff k σ τ) (hc : cleanAct k a = true) :
+/-- a fill with the value the key determines keeps a used cache coherent -/
+theorem coherent_fill (k : Cfg) (σ : State) (c : Cell) (v : Val) (hv : detOK k c v = true) (hco : Coherent k σ) :
+    Coherent k (fun x => if x = c then fillVal (σ c) v else σ x) := by
+  intro x d hd
+  have h0 := hco x d hd
+  by_cases hx : x = c
+  · subst hx
+    simp only [if_true]
+    simp only [detOK, hd, beq_iff_eq] at hv
+    subst hv
+    by_cases hz : σ x = 0
+    · right; simp [fillVal, hz]
+    · right; rw [fillVal_ne _ _ hz]
+      rcases h0 with h | h
+      · exact absurd h hz
+      · exact h
+  · simpa [hx] using h0
+
+/-- a clean action keeps used caches coherent -/
+theorem coherent_step (k : Cfg) (σ : State) (a : Act) (hc : cleanAct k a = true) (hco : Coherent k σ) :
+    Coherent k (stepState σ a) := by
+  cases a with
+  | read c => simpa [stepState] using hco
+  | write c v => simp [cleanAct] at hc
+  | syncStore c v => simp [cleanAct] at hc
+  | syncRead c => simp [cleanAct] at hc
+  | cacheUse c v => simpa [stepState] using hco
+  | cacheFill c v =>
+    simp only [cleanAct, Bool.and_eq_true] at hc
+    exact coherent_fill k σ c v hc.2 hco
+  | fillUse c v =>
+    simp only [cleanAct, Bool.and_eq_true, beq_iff_eq] at hc
+    exact coherent_fill k σ c v (by simp [detOK, hc.1.2]) hco
+  | lazyInit c v => exact coherent_fill k σ c v (lazyInit_clean k c v hc).2.2 hco
+
+/-- what a clean `fillUse` observes in a coherent state: the value the key determines -/
+theorem fillUse_obs (k : Cfg) (σ : State) (c : Cell) (v : Val) (hc : cleanAct k (.fillUse c v) = true)
+    (hco : Coherent k σ) : fillVal (σ c) v = v := by
+  simp only [cleanAct, Bool.and_eq_true, beq_iff_eq] at hc
+  rcases hco c v hc.1.2 with h | h
+  · simp [fillVal, h]
+  · by_cases hz : σ c = 0
+    · simp [fillVal, hz]
+    · rw [fillVal_ne _ _ hz]; exact h
+
+theorem agree_step (k : Cfg) (σ τ : State) (a : Act) (hag : AgreeOff k σ τ) (hc : cleanAct k a = true)
+    (hcs : Coherent k σ) (hct : Coherent k τ) :
     AgreeOff k (stepState σ a) (stepState τ a) ∧ stepObs σ a = stepObs τ a := by
+  have fillAg : ∀ c v, c ∈ k.cache → AgreeOff k (fun x => if x = c then fillVal (σ c) v else σ x)
+      (fun x => if x = c then fillVal (τ c) v else τ x) := by
+    intro c v hcm x hx
+    have : x ≠ c := fun e => hx (e ▸ hcm)
+    simp [this, hag x hx]
   cases a with
   | read c =>
     have hcn : c ∉ k.cache := by simpa [cleanAct] using hc
@@ -243,17 +325,17 @@ theorem agree_step (k : Cfg) (σ τ : State) (a : Act) (hag : AgreeOff k σ τ) 
     have hcn : c ∉ k.cache := by simpa [cleanAct] using hc
     exact ⟨by simpa [stepState] using hag, by simp [stepObs, hag c hcn]⟩
   | cacheFill c v =>
-    have hcm : c ∈ k.cache := by simpa [cleanAct] using hc
-    refine ⟨?_, by simp [stepObs]⟩
-    intro x hx
-    have : x ≠ c := fun e => hx (e ▸ hcm)
-    simp [stepState, this, hag x hx]
+    have hcm : c ∈ k.cache := by
+      simp only [cleanAct, Bool.and_eq_true, List.contains_iff_mem] at hc; simpa using hc.1
+    exact ⟨fillAg c v hcm, by simp [stepObs]⟩
+  | fillUse c v =>
+    have hcm : c ∈ k.cache := by
+      simp only [cleanAct, Bool.and_eq_true, List.contains_iff_mem] at hc; simpa using hc.1.1
+    refine ⟨fillAg c v hcm, ?_⟩
+    simp only [stepObs]
+    rw [fillUse_obs k σ c v hc hcs, fillUse_obs k τ c v hc hct]
   | lazyInit c v =>
-    simp only [cleanAct, Bool.and_eq_true, Bool.not_eq_true', List.contains_iff_mem] at hc
-    have hcn : c ∉ k.cache := by
-      intro h
-      have : k.cache.contains c = true := by simpa using h
-      rw [this] at hc; exact absurd hc.2 (by simp)
+    have hcn := (lazyInit_clean k c v hc).2.1
     have hcc := hag c hcn
     refine ⟨?_, by simp [stepObs, hcc]⟩
     intro x hx
@@ -261,6 +343,10 @@ theorem agree_step (k : Cfg) (σ τ : State) (a : Act) (hag : AgreeOff k σ τ) 
 
 theorem agree_other (k : Cfg) (σ τ : State) (a : Act) (hag : AgreeOff k σ τ) (hc : cleanAct k a = true)
     (hl : LazyInit k σ) : AgreeOff k (stepState σ a) τ := by
+  have fillAg : ∀ c v, c ∈ k.cache → AgreeOff k (fun x => if x = c then fillVal (σ c) v else σ x) τ := by
+    intro c v hcm x hx
+    have : x ≠ c := fun e => hx (e ▸ hcm)
+    simp [this, hag x hx]
   cases a with
   | read c => simpa [stepState] using hag
   | write c v => simp [cleanAct] at hc
@@ -268,13 +354,15 @@ theorem agree_other (k : Cfg) (σ τ : State) (a : Act) (hag : AgreeOff k σ τ)
   | syncRead c => simp [cleanAct] at hc
   | cacheUse c v => simpa [stepState] using hag
   | cacheFill c v =>
-    have hcm : c ∈ k.cache := by simpa [cleanAct] using hc
-    intro x hx
-    have : x ≠ c := fun e => hx (e ▸ hcm)
-    simp [stepState, this, hag x hx]
+    have hcm : c ∈ k.cache := by
+      simp only [cleanAct, Bool.and_eq_true, List.contains_iff_mem] at hc; simpa using hc.1
+    exact fillAg c v hcm
+  | fillUse c v =>
+    have hcm : c ∈ k.cache := by
+      simp only [cleanAct, Bool.and_eq_true, List.contains_iff_mem] at hc; simpa using hc.1.1
+    exact fillAg c v hcm
   | lazyInit c v =>
-    simp only [cleanAct, Bool.and_eq_true, List.contains_iff_mem] at hc
-    have h0 := hl c (by simpa using hc.1)
+    have h0 := hl c (lazyInit_clean k c v hc).1
     intro x hx
     simp only [stepState]
     by_cases hxc : x = c
@@ -292,9 +380,46 @@ theorem final_agree (k : Cfg) : ∀ (tr : Trace) (σ τ : State), CleanTrace k t
     exact final_agree k tr (stepState σ a) τ (fun x hx => hc x (by simp [hx])) (lazy_step k σ a hca hl)
       (agree_other k σ τ a hag hca hl)
 
+/-! ## lazy initialisation as load-or-publish (values only) -/
+
+/-- a nil-guarded lazy initialisation seen as what it does to values: load-or-publish of `v` -/
+def syncOf : Act → Act
+  | .lazyInit c v => .fillUse c v
+  | a => a
+
+theorem syncOf_state (σ : State) (a : Act) : stepState σ (syncOf a) = stepState σ a := by
+  cases a <;> rfl
+
+theorem syncOf_obs (σ : State) (a : Act) : stepObs σ (syncOf a) = stepObs σ a := by
+  cases a with
+  | lazyInit c v => simp [syncOf, stepObs, fillVal]
+  | _ => rfl
+
+def mapTrace (tr : Trace) : Trace := tr.map (fun x => (x.1, syncOf x.2))
+
+theorem readsOf_map (i : Nat) : ∀ (tr : Trace) (σ : State), readsOf i σ (mapTrace tr) = readsOf i σ tr
+  | [], _ => rfl
+  | (j, a) :: tr, σ => by
+    simp only [mapTrace, List.map_cons, readsOf, syncOf_state, syncOf_obs]
+    have ih := readsOf_map i tr (stepState σ a)
+    simp only [mapTrace] at ih
+    rw [ih]
+
+theorem solo_map : ∀ (as : List Act) (σ : State), solo σ (as.map syncOf) = solo σ as
+  | [], _ => rfl
+  | a :: as, σ => by simp only [List.map_cons, solo, syncOf_state, syncOf_obs, solo_map as]
+
+theorem proj_map (i : Nat) : ∀ tr : Trace, proj i (mapTrace tr) = (proj i tr).map syncOf
+  | [] => rfl
+  | (j, a) :: tr => by
+    have ih := proj_map i tr
+    simp only [mapTrace] at ih
+    by_cases h : j = i <;> simp [mapTrace, proj, h, ih]
+
 /-! ## reading the generated table -/
 
-inductive RowClass | cache | cacheLoad | inertCas | lazyDecl | lazyCtor | outParam | plain | unread
+inductive RowClass | cache | cacheLoad | inertCas | lazyDecl | lazyCtor | outParam | plain | unread | appendSpare | appendClipped
+  | cacheFirstWins | lastWriterWins
   deriving DecidableEq, Repr
 
 /-- entry points whose reference parameters are caller-owned, per-call output (`schemas` of
@@ -305,16 +430,23 @@ def rowClass : SharedWrite → RowClass
   | .unrecognised _ => .unread
   | .write _ _ _ _ root sync _ via =>
     match sync with
-    | .mutex | .syncMap | .once => .cache
+    | .syncMap | .once => .cache
+    | .mutexIfAbsent => .cacheFirstWins   -- load-or-publish: every caller goes on with the first published value
+    | .mutex => .lastWriterWins           -- unconditional store under a lock: no data race, but what a reader gets back
+                                          -- depends on who stored last (F-C15-2 before its repair)
     | .syncMapLoad => .cacheLoad     -- the caller USES what a process-wide cache holds
     | .syncMapCasNil => .inertCas    -- `CompareAndSwap(k, nil, v)`: stores nothing for an absent key
     | .nilGuardInit => .lazyDecl
     | .nilGuardCtor => .lazyCtor
+    | .appendSpare => .appendSpare   -- aliasing through spare capacity: see `appendActs`
+    | .appendClipped => .appendClipped
     | _ => if root = .param && outParamEntries.contains via then .outParam else .plain
 
 /-- the obligation on one row: synchronised, or a nil-guarded re-initialisation of something that is
-    initialised (by its declaration / by the constructor), or per-call output -/
-def rowOK (w : SharedWrite) : Bool := rowClass w != .plain && rowClass w != .unread
+    initialised (by its declaration / by the constructor), or per-call output; an `append` to a shared slice
+    only when the slice is clipped to its length -/
+def rowOK (w : SharedWrite) : Bool :=
+  rowClass w != .plain && rowClass w != .unread && rowClass w != .appendSpare && rowClass w != .lastWriterWins
 
 def rowGlobal : SharedWrite → Option String
   | .write _ _ _ _ root _ g _ => if root = .global || root = .viaGlobal then some g else none
@@ -337,15 +469,25 @@ def tableActsFrom (t : List SharedWrite) : Nat → List SharedWrite → List Act
   | k, w :: ws =>
     (match rowClass w with
      | .cache => [Act.cacheFill (rowCell t k w) 1]
+     | .cacheFirstWins => [Act.fillUse (rowCell t k w) 1]
+     | .lastWriterWins => [Act.syncStore (rowCell t k w) 1, Act.syncRead (rowCell t k w)]
      | .cacheLoad => [Act.cacheUse (rowCell t k w) 1]
      | .inertCas => []
      | .lazyDecl | .lazyCtor => [Act.lazyInit (rowCell t k w) 1]
      | .outParam => []
+     | .appendClipped => []
+     -- the appended element is stored in the shared backing array and then read back through the new slice
+     | .appendSpare => [Act.write (rowCell t k w) 1, Act.read (rowCell t k w)]
      | _ => [Act.write (rowCell t k w) 1]) ++ tableActsFrom t (k + 1) ws
 
 def tableCacheFrom (t : List SharedWrite) : Nat → List SharedWrite → List Cell
   | _, [] => []
-  | k, w :: ws => (if rowClass w = .cache then [rowCell t k w] else []) ++ tableCacheFrom t (k + 1) ws
+  | k, w :: ws => (if rowClass w = .cache ∨ rowClass w = .cacheFirstWins then [rowCell t k w] else []) ++ tableCacheFrom t (k + 1) ws
+
+/-- read-back caches: the value the key determines (abstractly 1) -/
+def tableDetFrom (t : List SharedWrite) : Nat → List SharedWrite → List (Cell × Val)
+  | _, [] => []
+  | k, w :: ws => (if rowClass w = .cacheFirstWins then [(rowCell t k w, 1)] else []) ++ tableDetFrom t (k + 1) ws
 
 def tableLazyFrom (t : List SharedWrite) : Nat → List SharedWrite → List Cell
   | _, [] => []
@@ -353,7 +495,8 @@ def tableLazyFrom (t : List SharedWrite) : Nat → List SharedWrite → List Cel
     (if rowClass w = .lazyDecl ∨ rowClass w = .lazyCtor then [rowCell t k w] else []) ++ tableLazyFrom t (k + 1) ws
 
 def tableActs (t : List SharedWrite) : List Act := tableActsFrom t 0 t
-def tableCfg (t : List SharedWrite) : Cfg := { cache := tableCacheFrom t 0 t, lazy := tableLazyFrom t 0 t }
+def tableCfg (t : List SharedWrite) : Cfg :=
+  { cache := tableCacheFrom t 0 t, lazy := tableLazyFrom t 0 t, det := tableDetFrom t 0 t }
 
 /-- (global variable, class) of a row — what the concrete footprints of `ConcCase` must account for -/
 def rowKey (w : SharedWrite) : String × RowClass :=
@@ -365,9 +508,81 @@ def rowKey (w : SharedWrite) : String × RowClass :=
 def modelledRows : List (String × RowClass) :=
   [ ("compiledPatterns", .cacheLoad),        -- patCell: cacheUse (the matcher found in the cache is USED) …
     ("compiledPatterns", .inertCas),         -- … and nothing ever fills it (`CompareAndSwap(pattern, nil, cp)`)
-    ("typeInfos", .cache),                   -- typeCell: cacheFill (value is a function of the key alone)
+    ("typeInfos", .cacheFirstWins),                   -- typeCell: fillUse (first publisher wins; the value is a function of the key alone: `Cfg.det`)
     ("sliceUniqueItemsChecker", .lazyDecl),  -- uniqCell: lazyInit on an initialised cell
     ("routers/legacy.(*Router).node", .lazyCtor),  -- part of routerCell: NewRouter creates the node
     ("openapi3gen.(*Generator).NewSchemaRefForValue", .outParam) ]  -- caller-owned output map
+
+def rowFn : SharedWrite → String
+  | .write _ _ fn _ _ _ _ _ => fn
+  | .unrecognised _ => ""
+
+/-! ## package-level variables the concurrent code reads (table `Gen.sharedGlobals`) -/
+
+inductive GKind | read | write | addr
+  deriving DecidableEq, Repr
+
+/-- one access of a package-level variable: in which function, of which kind, under which mutex ("" none,
+    "syncMap" a method of the sync.Map itself, "once" inside Once.Do), and whether the function is reachable from
+    the concurrent entry points -/
+structure GAccess where
+  fn : String
+  kind : GKind
+  guard : String
+  reachable : Bool
+  deriving DecidableEq, Repr
+
+structure GlobalRow where
+  pkg : String
+  name : String
+  kind : String
+  selfSync : Bool           -- the variable IS a synchronisation object (sync.Map, mutex, once, atomic)
+  accesses : List GAccess   -- every access outside `init` functions, in all functions of the library
+  deriving DecidableEq, Repr
+
+structure SyncObject where
+  name : String
+  kind : String
+  protects : List String    -- the package-level variables accessed while it is held
+  deriving DecidableEq, Repr
+
+/-- The functions that change the library's process-wide registries. The property's quantifier is over
+    FindRoute / ValidateRequest / ValidateResponse / VisitJSON / schema generation: these are NOT among the
+    concurrent calls (openapi3filter documents the body-decoder registry as not thread-safe for registration).
+    A writer of a plainly read registry that is not listed here breaks `globals_consistent`. -/
+def registrationAPIs : List String :=
+  [ "openapi3.DefineStringFormatValidator", "openapi3.DefineNumberFormatValidator",
+    "openapi3.DefineIntegerFormatValidator", "openapi3.RegisterArrayUniqueItemsChecker",
+    "openapi3filter.RegisterBodyDecoder", "openapi3filter.UnregisterBodyDecoder" ]
+
+/-- all accesses under one and the same mutex -/
+def oneGuard (r : GlobalRow) : Bool :=
+  match r.accesses with
+  | [] => false
+  | a :: as => a.guard != "" && a.guard != "once" && as.all (fun b => b.guard == a.guard)
+
+/-- never written anywhere (the address may be handed out: `&minInt8` stored in a generated schema) -/
+def neverWritten (r : GlobalRow) : Bool := r.accesses.all (fun a => a.kind != .write)
+
+/-- plain reads next to a registration API: the reachable code only reads (or re-initialises under a nil guard, a
+    row of `Gen.sharedWrites` named in `lazy`), and every other writer is a registration function -/
+def registryOK (lazy : List String) (r : GlobalRow) : Bool :=
+  r.accesses.all (fun a =>
+    if a.reachable then a.kind == .read || (a.kind == .write && lazy.contains r.name)
+    else a.kind == .read || registrationAPIs.contains a.fn)
+
+inductive GClass | selfSync | mutexGuarded | immutable | registry | bad
+  deriving DecidableEq, Repr
+
+def globalClass (lazy : List String) (r : GlobalRow) : GClass :=
+  if r.selfSync then .selfSync else if oneGuard r then .mutexGuarded else if neverWritten r then .immutable
+  else if registryOK lazy r then .registry else .bad
+
+/-- package-level variables whose reachable write is a nil-guarded re-initialisation of an initialised variable -/
+def lazyGlobals (t : List SharedWrite) : List String :=
+  t.filterMap (fun w => match w with
+    | .write _ _ _ _ root sync g _ =>
+      if (root = .global) && sync = .nilGuardInit then some g else none
+    | _ => none)
 
 end KinModel.Conc
